@@ -6,8 +6,11 @@
    applied to the family F J p = UI (Some J) p.  mass_nd_msem proves  mass_nd = msem  for every dimension, every rectangle, every
    NoDup index list (induction on the fuel / number of straddling coordinates; the no-straddle leaf is the signed `volume`).
    Additivity under splitting ANY coordinate at ANY point and margin consistency (a coordinate ranging over the whole line drops
-   out) then follow for every dimension by induction over the coordinates, from the hypothesis that a tail integral with an infinite
-   coordinate vanishes -- assumed only for sub-lists J of the index list and points of matching length. *)
+   out) then follow for every dimension by induction over the coordinates, for an ARBITRARY function family UI: both are identities of
+   the inclusion-exclusion recursion itself (the eight-way sign split of a one-dimensional functional closes by `ring`), NOT facts
+   about tail integrals -- no vanishing at infinity, no copula, no monotonicity is used (audit5b B2: the hypothesis the earlier
+   statement carried was decorative).  What does need the copula -- non-negativity -- is in C12_Nonneg.v (d = 2, 3) and
+   C12_Indep.v (independent copula, any d).  mass_nd with too little fuel returns 0 silently: the theorems carry the bound. *)
 From Coq Require Import List Arith Bool Reals Lra Lia.
 From RV Require Import Base.RB Base.ExtNum Model.Copula Gen.GenC12Mass Model.MassNd Proofs.C12_Mass.
 Import ListNotations.
@@ -178,15 +181,8 @@ Inductive subl : list nat -> list nat -> Prop :=
 | subl_nil : subl [] []
 | subl_skip i J I : subl J I -> subl J (i :: I)
 | subl_take i J I : subl J I -> subl (i :: J) (i :: I).
-(* a tail integral with an infinite coordinate vanishes -- only asked for sub-lists J of the index list and points of matching length *)
-Definition Gd (I : list nat) (F : FT) : Prop := forall J p, subl J I -> length p = length J -> existsb is_inf p = true -> F J p = 0.
+(* F vanishes on every sub-list J of the index list (used by C12_Indep.v for axis families) *)
 Definition Zd (I : list nat) (F : FT) : Prop := forall J p, subl J I -> length p = length J -> F J p = 0.
-Lemma Gd_skip i I F : Gd (i :: I) F -> Gd I F.
-Proof. intros G J p H L E. apply G; auto. constructor; assumption. Qed.
-Lemma Gd_pre i v I F : Gd (i :: I) F -> Gd I (pre i v F).
-Proof. intros G J p H L E. unfold pre. apply G. constructor; assumption. simpl; congruence. simpl. rewrite E. apply orb_true_r. Qed.
-Lemma Zd_inf i v I F : Gd (i :: I) F -> is_inf v = true -> Zd I (pre i v F).
-Proof. intros G V J p H L. unfold pre. apply G. constructor; assumption. simpl; congruence. simpl. rewrite V. reflexivity. Qed.
 Lemma Zd_skip i I F : Zd (i :: I) F -> Zd I F.
 Proof. intros G J p H L. apply G; auto. constructor; assumption. Qed.
 Lemma Zd_pre i v I F : Zd (i :: I) F -> Zd I (pre i v F).
@@ -198,34 +194,30 @@ Proof.
   - destruct a as [|x a]; [discriminate|]. destruct b as [|y b]; [discriminate|]. simpl in La, Lb. cbn [msem].
     rewrite (IH a b F (Zd_skip _ _ _ Z)), !(IH a b (pre i _ F)) by (auto using Zd_pre; lia). destruct (straddles RNum x y); ring.
 Qed.
-Lemma Gd_app_skip I1 I F : Gd (I1 ++ I) F -> Gd I F.
-Proof. induction I1; simpl; auto. intros G. apply IHI1. eapply Gd_skip; eauto. Qed.
 
+(* for EVERY F: no hypothesis on the family (the values at +-inf of a straddling coordinate cancel between the two halves) *)
 Theorem msem_additive : forall (a1 b1 : list (ext R)) I1 (x y c : ext R) i a2 b2 I2 F, length a1 = length I1 -> length b1 = length I1 ->
-  length a2 = length I2 -> length b2 = length I2 -> Gd (I1 ++ i :: I2) F -> @xleb RNum x c = true -> @xleb RNum c y = true ->
+  @xleb RNum x c = true -> @xleb RNum c y = true ->
   msem (a1 ++ x :: a2) (b1 ++ y :: b2) (I1 ++ i :: I2) F =
   msem (a1 ++ x :: a2) (b1 ++ c :: b2) (I1 ++ i :: I2) F + msem (a1 ++ c :: a2) (b1 ++ y :: b2) (I1 ++ i :: I2) F.
 Proof.
-  induction a1 as [|x0 a1 IH]; intros b1 I1 x y c i a2 b2 I2 F La Lb La2 Lb2 G Hxc Hcy.
+  induction a1 as [|x0 a1 IH]; intros b1 I1 x y c i a2 b2 I2 F La Lb Hxc Hcy.
   - destruct I1; [|discriminate]. destruct b1; [|discriminate]. cbn [app] in *. cbn [msem].
-    pose proof (msem_zero I2 a2 b2 (pre i PInf F) (Zd_inf i PInf I2 F G eq_refl) La2 Lb2) as ZP.
-    pose proof (msem_zero I2 a2 b2 (pre i NInf F) (Zd_inf i NInf I2 F G eq_refl) La2 Lb2) as ZN.
     unfold straddles. rewrite !ge0_neg. change (T RNum) with R in *.
     destruct (@xlt0 RNum x) eqn:Fx; destruct (@xlt0 RNum c) eqn:Fc; destruct (@xlt0 RNum y) eqn:Fy;
       try (exfalso; pose proof (lt0_mono c y Hcy Fy); congruence); try (exfalso; pose proof (lt0_mono x c Hxc Fc); congruence);
-      cbn [andb negb]; rewrite ?ZP, ?ZN; ring.
-  - destruct I1 as [|i0 I1]; [discriminate|]. destruct b1 as [|y0 b1]; [discriminate|]. simpl in La, Lb. cbn [app] in G.
+      cbn [andb negb]; ring.
+  - destruct I1 as [|i0 I1]; [discriminate|]. destruct b1 as [|y0 b1]; [discriminate|]. simpl in La, Lb.
     cbn [app msem].
-    assert (K : forall F', Gd (I1 ++ i :: I2) F' -> msem (a1 ++ x :: a2) (b1 ++ y :: b2) (I1 ++ i :: I2) F' =
+    assert (K : forall F', msem (a1 ++ x :: a2) (b1 ++ y :: b2) (I1 ++ i :: I2) F' =
       msem (a1 ++ x :: a2) (b1 ++ c :: b2) (I1 ++ i :: I2) F' + msem (a1 ++ c :: a2) (b1 ++ y :: b2) (I1 ++ i :: I2) F')
-      by (intros F' G'; apply IH; first [lia | assumption]).
+      by (intros F'; apply IH; first [lia | assumption]).
     destruct (straddles RNum x0 y0).
-    + rewrite (K F (Gd_skip _ _ _ G)), (K (pre i0 y0 F) (Gd_pre _ _ _ _ G)), (K (pre i0 PInf F) (Gd_pre _ _ _ _ G)),
-        (K (pre i0 NInf F) (Gd_pre _ _ _ _ G)), (K (pre i0 x0 F) (Gd_pre _ _ _ _ G)). ring.
-    + rewrite (K (pre i0 y0 F) (Gd_pre _ _ _ _ G)), (K (pre i0 x0 F) (Gd_pre _ _ _ _ G)). ring.
+    + rewrite (K F), (K (pre i0 y0 F)), (K (pre i0 PInf F)), (K (pre i0 NInf F)), (K (pre i0 x0 F)). ring.
+    + rewrite (K (pre i0 y0 F)), (K (pre i0 x0 F)). ring.
 Qed.
 
-(* ---- back to mass_nd and the guarded hypothesis of Properties/C12.v (okI d: NoDup, entries < d) ------------------------------ *)
+(* ---- back to mass_nd (NoDup index list, fuel bound) ------------------------------------------------------------------------- *)
 Lemma cnt_le (a b : list (ext R)) : (cnt a b <= length a)%nat.
 Proof. revert b. induction a as [|x a IH]; intros [|y b]; simpl; try lia. specialize (IH b). destruct (straddles RNum x y); lia. Qed.
 Lemma subl_in J I : subl J I -> forall j, In j J -> In j I.
@@ -237,30 +229,21 @@ Proof.
   - inversion N; subst. constructor; auto. intros K. apply (subl_in _ _ H) in K. contradiction.
 Qed.
 
-Section Guarded.
-  Variable UI : idx -> list (ext R) -> R.
-  Variable ok : list nat -> Prop.
-  Hypothesis ok_sub : forall J I, subl J I -> ok I -> ok J.
-  Hypothesis UI_inf : forall I x, ok I -> length x = length I -> existsb is_inf x = true -> UI (Some I) x = 0.
-  Lemma Gd_FU I : ok I -> Gd I (FU UI).
-  Proof. intros K J p H L E. unfold FU. apply UI_inf; eauto. Qed.
-
-  Theorem mass_nd_additive (a1 b1 : list (ext R)) I1 (x y c : ext R) i a2 b2 I2 fuel :
-    length a1 = length I1 -> length b1 = length I1 -> length a2 = length I2 -> length b2 = length I2 ->
-    NoDup (I1 ++ i :: I2) -> ok (I1 ++ i :: I2) -> (length I1 + S (length I2) < fuel)%nat ->
-    @xleb RNum x c = true -> @xleb RNum c y = true ->
-    mass_nd RNum UI fuel (a1 ++ x :: a2) (b1 ++ y :: b2) (I1 ++ i :: I2) =
-    mass_nd RNum UI fuel (a1 ++ x :: a2) (b1 ++ c :: b2) (I1 ++ i :: I2) + mass_nd RNum UI fuel (a1 ++ c :: a2) (b1 ++ y :: b2) (I1 ++ i :: I2).
-  Proof.
-    intros La Lb La2 Lb2 N K Hf Hxc Hcy.
-    assert (L : forall (u : ext R), length (a1 ++ u :: a2) = length (I1 ++ i :: I2)) by (intros; rewrite !app_length; cbn [length]; lia).
-    assert (L' : forall (v : ext R), length (b1 ++ v :: b2) = length (I1 ++ i :: I2)) by (intros; rewrite !app_length; cbn [length]; lia).
-    assert (C : forall (u v : ext R), (cnt (a1 ++ u :: a2) (b1 ++ v :: b2) < fuel)%nat)
-      by (intros u v; pose proof (cnt_le (a1 ++ u :: a2) (b1 ++ v :: b2)) as Q; rewrite app_length in Q; cbn [length] in Q; lia).
-    rewrite !(mass_nd_msem UI fuel) by first [apply L | apply L' | assumption | apply C].
-    apply msem_additive; auto. apply Gd_FU; assumption.
-  Qed.
-End Guarded.
+Theorem mass_nd_additive : forall (UI : idx -> list (ext R) -> R)
+  (a1 b1 : list (ext R)) I1 (x y c : ext R) i a2 b2 I2 fuel,
+  length a1 = length I1 -> length b1 = length I1 -> length a2 = length I2 -> length b2 = length I2 ->
+  NoDup (I1 ++ i :: I2) -> (length I1 + S (length I2) < fuel)%nat -> @xleb RNum x c = true -> @xleb RNum c y = true ->
+  mass_nd RNum UI fuel (a1 ++ x :: a2) (b1 ++ y :: b2) (I1 ++ i :: I2) =
+  mass_nd RNum UI fuel (a1 ++ x :: a2) (b1 ++ c :: b2) (I1 ++ i :: I2) + mass_nd RNum UI fuel (a1 ++ c :: a2) (b1 ++ y :: b2) (I1 ++ i :: I2).
+Proof.
+  intros UI a1 b1 I1 x y c i a2 b2 I2 fuel La Lb La2 Lb2 N Hf Hxc Hcy.
+  assert (L : forall (u : ext R), length (a1 ++ u :: a2) = length (I1 ++ i :: I2)) by (intros; rewrite !app_length; cbn [length]; lia).
+  assert (L' : forall (v : ext R), length (b1 ++ v :: b2) = length (I1 ++ i :: I2)) by (intros; rewrite !app_length; cbn [length]; lia).
+  assert (C : forall (u v : ext R), (cnt (a1 ++ u :: a2) (b1 ++ v :: b2) < fuel)%nat)
+    by (intros u v; pose proof (cnt_le (a1 ++ u :: a2) (b1 ++ v :: b2)) as Q; rewrite app_length in Q; cbn [length] in Q; lia).
+  rewrite !(mass_nd_msem UI fuel) by first [apply L | apply L' | assumption | apply C].
+  apply msem_additive; auto.
+Qed.
 
 Theorem mass_nd_whole_line UI (a1 b1 : list (ext R)) I1 i a2 b2 I2 fuel :
   length a1 = length I1 -> length b1 = length I1 -> length a2 = length I2 -> length b2 = length I2 ->
